@@ -10,6 +10,7 @@ import os, random, subprocess
 from vlib import *
 from crashcheck import History, TABLES
 from dbsession import DB
+from crashlib import link_discipline
 
 
 def driver(trace_text, mode=None):
@@ -215,6 +216,10 @@ def run(res, replay=None):
         for k in tot:
             tot[k] += int(kv.get(k, 0))
         res.note_case(desc + "|" + o, int(kv.get("tracked_pagewrites", 0)) >= 1)
+        lv = link_discipline(text)
+        res.extra["link_checked_traces"] = res.extra.get("link_checked_traces", 0) + 1
+        if lv and len(res.oracle_failures) < 5:
+            res.oracle_failures.append(("# I/O trace (hook H1 format) of: %s\n%s" % (desc, text if len(text) < 400000 else text[:400000]), "write-ahead discipline violated (page link): " + lv[0]))
         if kv.get("wal_ok") != "1" and len(res.oracle_failures) < 5:
             res.oracle_failures.append(("# I/O trace (hook H1 format) of: %s\n%s" % (desc, text if len(text) < 400000 else text[:400000]), "write-ahead discipline violated: " + o))
     bad_rt = [l for l in rts if "roundtrip_mismatch=0" not in l]
